@@ -3391,6 +3391,9 @@ class TensorDictBase(MutableMapping):
             )
         # fall back on split, using upper rounding
         split_size = -(self.batch_size[dim] // -chunks)
+        if split_size == 0:
+            # a dim of size 0: torch.chunk returns `chunks` empty chunks
+            return self.split([0] * chunks, dim=dim)
         return self.split(split_size, dim=dim)
 
     @overload
